@@ -7,7 +7,7 @@ use renoir::operator::Operator;
 use renoir::prelude::*;
 use renoir::{Replication, Stream};
 
-use crate::kit::{erase, DS};
+use crate::kit::{erase, probe, DS};
 
 #[derive(Clone, Debug, PartialEq, Eq, Hash)]
 pub enum Instr {
@@ -230,17 +230,35 @@ fn join(a: DS<i64>, b: DS<i64>, kind: u8, ship: u8, local: u8) -> DS<i64> {
 /// Build the job for `prog` over the given source stream; returns one output handle per sink, in
 /// program order (streams left on the stack at the end are sunk too).
 pub fn build(src: DS<i64>, prog: &Program) -> Vec<StreamOutput<Vec<i64>>> {
-    let mut stack: Vec<DS<i64>> = vec![src];
+    build_inner(src, prog, false)
+}
+
+/// Like `build`, with a probe (id = instruction index) on every stream an instruction produces.
+pub fn build_probed(src: DS<i64>, prog: &Program) -> Vec<StreamOutput<Vec<i64>>> {
+    build_inner(src, prog, true)
+}
+
+fn build_inner(src: DS<i64>, prog: &Program, probes: bool) -> Vec<StreamOutput<Vec<i64>>> {
+    let mut stack: Vec<DS<i64>> = vec![if probes { erase(probe(src, 1000)) } else { src }];
+    let mut pc = 0u32;
+    let mut tag = |s: DS<i64>, pc: u32| -> DS<i64> {
+        if probes {
+            erase(probe(s, pc))
+        } else {
+            s
+        }
+    };
     let mut outs = vec![];
     for i in prog {
+        pc += 1;
         match i {
             Instr::Dup => {
                 let s = stack.pop().unwrap();
                 let mut v = s.split(2);
                 let b = v.pop().unwrap();
                 let a = v.pop().unwrap();
-                stack.push(erase(a));
-                stack.push(erase(b));
+                stack.push(tag(erase(a), pc * 10));
+                stack.push(tag(erase(b), pc * 10 + 1));
             }
             Instr::Swap => {
                 let b = stack.pop().unwrap();
@@ -251,12 +269,12 @@ pub fn build(src: DS<i64>, prog: &Program) -> Vec<StreamOutput<Vec<i64>>> {
             Instr::Merge => {
                 let b = stack.pop().unwrap();
                 let a = stack.pop().unwrap();
-                stack.push(erase(a.merge(b)));
+                stack.push(tag(erase(a.merge(b)), pc * 10));
             }
             Instr::Join(kind, ship, local) => {
                 let b = stack.pop().unwrap();
                 let a = stack.pop().unwrap();
-                stack.push(join(a, b, *kind, *ship, *local));
+                stack.push(tag(join(a, b, *kind, *ship, *local), pc * 10));
             }
             Instr::Sink => {
                 let s = stack.pop().unwrap();
@@ -264,7 +282,7 @@ pub fn build(src: DS<i64>, prog: &Program) -> Vec<StreamOutput<Vec<i64>>> {
             }
             u => {
                 let s = stack.pop().unwrap();
-                stack.push(unary(s, u));
+                stack.push(tag(unary(s, u), pc * 10));
             }
         }
     }
